@@ -124,43 +124,45 @@ section sched
 variable (civil : CivilFn) (hciv : ∀ loc m, (civil loc m).wf)
 include hciv
 
-/-- For every history of AddJob/RemoveJob/EnableJob/DisableJob calls and timer-function runs (at any wall-clock
-    minutes): the timer function running at minute `now` runs job object p  ⇔  it runs in the minute the spool was
-    filled for ∧ p is present ∧ enabled ∧ p's spec denotes `now` in p's location; and it runs p at most once. -/
-theorem C20_fires (s : Sched) (hr : Reach civil s) (now : Int) :
-    (firedAt civil s now).Nodup ∧
-    ∀ p, p ∈ firedAt civil s now ↔
-      (now = s.next ∧ p ∈ s.jobs ∧ (s.objs p).disable = false ∧
-        (s.objs p).spec.denote (civil (s.objs p).loc now) = true) := by
-  obtain ⟨h1, h2⟩ := fired_iff civil s (reach_inv civil hr) now
-  refine ⟨h1, fun p => ?_⟩
-  rw [h2 p]
+/-- Soundness, for every history of AddJob/RemoveJob/EnableJob/DisableJob calls and timer-function runs at any
+    wall-clock minutes — the timer function taken as one step or as its two halves with calls landing between them:
+    whatever the timer function runs at minute `now` is present, enabled and its spec denotes `now` in its location
+    (so a disabled or removed job never runs and nothing runs at a minute outside its spec), and nothing runs twice. -/
+theorem C20_fires_sound (s : Sched) (a : Bool) (hr : Reach civil s a) (now : Int) :
+    (firedAt s now).Nodup ∧
+    ∀ p ∈ firedAt s now, p ∈ s.jobs ∧ (s.objs p).disable = false ∧
+      (s.objs p).spec.denote (civil (s.objs p).loc now) = true := by
+  obtain ⟨h1, h2⟩ := fired_sound civil s (reach_inv civil hr) now
+  refine ⟨h1, fun p hp => ?_⟩
+  obtain ⟨x, y, z⟩ := h2 p hp
+  exact ⟨x, y, by rw [← runsAt_eq_denote civil hr hciv p x now]; exact z⟩
+
+/-- Exactness: when c.schedule has run since the spool was last drained (createCron, or a complete timer run, followed
+    by any calls) and the timer function runs in the minute it was armed for (c.next), it runs job object p  ⇔
+    p is present ∧ enabled ∧ p's spec denotes that minute in p's location. -/
+theorem C20_fires (s : Sched) (hr : Reach civil s true) (p : Nat) :
+    p ∈ firedAt s s.next ↔
+      (p ∈ s.jobs ∧ (s.objs p).disable = false ∧ (s.objs p).spec.denote (civil (s.objs p).loc s.next) = true) := by
+  rw [fired_iff civil s (reach_inv civil hr) (reach_armed civil hr) p]
   constructor
-  · rintro ⟨a, b, c, d⟩
-    exact ⟨a, b, c, by rw [← runsAt_eq_denote civil hr hciv p b now]; exact d⟩
-  · rintro ⟨a, b, c, d⟩
-    exact ⟨a, b, c, by rw [runsAt_eq_denote civil hr hciv p b now]; exact d⟩
+  · rintro ⟨b, c, d⟩
+    exact ⟨b, c, by rw [← runsAt_eq_denote civil hr hciv p b s.next]; exact d⟩
+  · rintro ⟨b, c, d⟩
+    exact ⟨b, c, by rw [runsAt_eq_denote civil hr hciv p b s.next]; exact d⟩
 
-/-- soundness, every history and every tick time: whatever runs at minute `now` is present, enabled and matches `now`
-    (so a disabled or removed job never runs, and nothing runs at a minute outside its spec) -/
-theorem C20_fires_sound (s : Sched) (hr : Reach civil s) (now : Int) (p : Nat) (hp : p ∈ firedAt civil s now) :
-    p ∈ s.jobs ∧ (s.objs p).disable = false ∧ (s.objs p).spec.denote (civil (s.objs p).loc now) = true :=
-  (((C20_fires civil hciv s hr now).2 p).mp hp).2
-
-/-- completeness for a timer that runs in the minute it was armed for (c.next): every present, enabled job whose spec
-    denotes that minute runs -/
-theorem C20_fires_complete (s : Sched) (hr : Reach civil s) (p : Nat) (hp : p ∈ s.jobs)
+/-- completeness, spelled out -/
+theorem C20_fires_complete (s : Sched) (hr : Reach civil s true) (p : Nat) (hp : p ∈ s.jobs)
     (he : (s.objs p).disable = false) (hm : (s.objs p).spec.denote (civil (s.objs p).loc s.next) = true) :
-    p ∈ firedAt civil s s.next :=
-  ((C20_fires civil hciv s hr s.next).2 p).mpr ⟨rfl, hp, he, hm⟩
+    p ∈ firedAt s s.next :=
+  (C20_fires civil hciv s hr p).mpr ⟨hp, he, hm⟩
 
-/-- at most once per minute -/
-theorem C20_fires_once (s : Sched) (hr : Reach civil s) (now : Int) : (firedAt civil s now).Nodup :=
-  (C20_fires civil hciv s hr now).1
+/-- at most once per run of the timer function (hence per minute, the timer being re-armed for the next minute) -/
+theorem C20_fires_once (s : Sched) (a : Bool) (hr : Reach civil s a) (now : Int) : (firedAt s now).Nodup :=
+  (C20_fires_sound civil hciv s a hr now).1
 
 /-- JobSchedule lists exactly the minutes of the window [since truncated to the minute, + period) that the job's spec
     denotes in the job's location, in ascending order; it fails exactly for unknown names -/
-theorem C20_jobSchedule (s : Sched) (hr : Reach civil s) (name : Nat) (sinceNs periodNs : Int) :
+theorem C20_jobSchedule (s : Sched) (a : Bool) (hr : Reach civil s a) (name : Nat) (sinceNs periodNs : Int) :
     (jobSchedule civil s name sinceNs periodNs = none ↔ findJob s name = none) ∧
     ∀ l, jobSchedule civil s name sinceNs periodNs = some l →
       ∃ p, findJob s name = some p ∧ p ∈ s.jobs ∧ (s.objs p).name = name ∧ l.Pairwise (· < ·) ∧
@@ -172,7 +174,7 @@ theorem C20_jobSchedule (s : Sched) (hr : Reach civil s) (name : Nat) (sinceNs p
   rw [hm m, runsAt_eq_denote civil hr hciv p hpj m]
 
 /-- Schedule has an entry for exactly the window minutes some present job's spec denotes, carrying exactly those jobs -/
-theorem C20_schedule (s : Sched) (hr : Reach civil s) (sinceNs periodNs : Int) (m : Int) (js : List Nat) :
+theorem C20_schedule (s : Sched) (a : Bool) (hr : Reach civil s a) (sinceNs periodNs : Int) (m : Int) (js : List Nat) :
     (m, js) ∈ scheduleList civil s sinceNs periodNs ↔
       inWindow sinceNs periodNs m ∧
       js = s.jobs.filter (fun p => (s.objs p).spec.denote (civil (s.objs p).loc m)) ∧ js ≠ [] := by
@@ -193,38 +195,49 @@ theorem C20_add_rejects (civil : CivilFn) (s : Sched) (name : Nat) (text : List 
   simp only [step, h]
   split <;> simp
 
-/-- what the completeness hypothesis excludes: a timer function that runs in another minute than the one it was
-    armed for runs nothing (the jobs of that minute are missed, none runs at a wrong minute) -/
-theorem C20_late_tick_runs_nothing (civil : CivilFn) (s : Sched) (now : Int) (h : now ≠ s.next) :
-    firedAt civil s now = [] := by
-  rw [firedAt_eq]; simp [h]
+/-- what the exactness hypothesis excludes: the timer function runs only entries that were pushed for the minute it
+    runs in — a late or early run, or an entry pushed by a call that landed inside an earlier run, runs nothing wrong -/
+theorem C20_runs_only_entries_of_this_minute (s : Sched) (now : Int) (p : Nat) (h : p ∈ firedAt s now) :
+    (p, now) ∈ s.spool := by
+  have := ((fireLoop_spec s.objs now s.spool [] List.nodup_nil).2 p).mp h
+  simp only [List.not_mem_nil, false_or] at this
+  exact this.1
 
 -- non-vacuity of the scheduler theorems: a reachable state with a present, enabled, matching job that fires,
 -- and one where a disabled job does not
 def civUTC : CivilFn := fun _ m => ⟨2026, 1, 1, ((m / 60) % 24).toNat, (m % 60).toNat, 4⟩
 def exState : Sched := (step civUTC (init 90) (.add 1 "30 1 * * *".toList 0)).1
-example : Reach civUTC exState := Reach.step _ _ (Reach.init 90) rfl
-example : firedAt civUTC exState 90 = [0] := by decide
-example : firedAt civUTC (step civUTC exState (.disable 1)).1 90 = [] := by decide
-example : firedAt civUTC (step civUTC (step civUTC exState (.disable 1)).1 (.enable 1)).1 90 = [0] := by decide
+example : Reach civUTC exState true := Reach.call _ _ _ (Reach.init 90) rfl
+example : firedAt exState 90 = [0] := by decide
+example : firedAt (step civUTC exState (.disable 1)).1 90 = [] := by decide
+example : firedAt (step civUTC (step civUTC exState (.disable 1)).1 (.enable 1)).1 90 = [0] := by decide
+example : firedAt exState 91 = [] := by decide
 example : jobSchedule civUTC exState 1 (60 * minuteNs + 5) (61 * minuteNs) = some [90] := by decide
+-- a call landing between the two halves of the timer function: the job added for the minute being processed
+-- is spooled for that minute and does not run in the next one
+def midState : Sched :=
+  (step civUTC (step civUTC (step civUTC (init 90) (.tickDrain 90)).1 (.add 1 "30 1 * * *".toList 0)).1 (.tickSched 90)).1
+example : Reach civUTC midState true :=
+  Reach.tickSched _ _ _ (Reach.call _ _ _ (Reach.tickDrain _ _ _ (Reach.init 90)) rfl)
+example : midState.spool = [(0, 90)] ∧ midState.next = 91 ∧ firedAt midState 91 = [] := by decide
 
 /-! ## What the repaired defects looked like (statements about the unrepaired timer function, for the record) -/
 
-/-- the spool loop before "run a job at most once per tick": every spooled, enabled entry runs -/
-def fireLoopUnrepaired (objs : Nat → JobObj) (spool : List Nat) : List Nat :=
-  spool.filter (fun p => (objs p).disable = false)
+/-- the spool loop before the repairs: every spooled, enabled entry runs, whatever minute it was pushed for -/
+def fireLoopUnrepaired (objs : Nat → JobObj) (spool : List (Nat × Int)) : List Nat :=
+  (spool.filter (fun e => (objs e.1).disable = false)).map (·.1)
 
 /-- D17: with that loop "at most once per minute" fails — EnableJob on a spooled job makes it run twice -/
 theorem C20_D17_unrepaired_counterexample :
-    ∃ s, Reach civUTC s ∧ ¬ (fireLoopUnrepaired s.objs s.spool).Nodup :=
-  ⟨(step civUTC exState (.enable 1)).1, Reach.step _ _ (Reach.step _ _ (Reach.init 90) rfl) rfl, by decide⟩
+    ∃ s, Reach civUTC s true ∧ ¬ (fireLoopUnrepaired s.objs s.spool).Nodup :=
+  ⟨(step civUTC exState (.enable 1)).1, Reach.call _ _ _ (Reach.call _ _ _ (Reach.init 90) rfl) rfl, by decide⟩
 
-/-- D26: without the `actionTime.Equal(c.next)` test a late timer run executes the spool of another minute —
-    the job runs at a minute its spec does not denote -/
+/-- D26/D27: with that loop a run of the timer function executes entries pushed for another minute — after a late
+    timer run, or after a call that landed between the two halves of an earlier run — at a minute the spec does not denote -/
 theorem C20_D26_unrepaired_counterexample :
-    ∃ s now p, Reach civUTC s ∧ now ≠ s.next ∧ p ∈ fireLoop s.objs s.spool [] ∧
+    ∃ s now p, Reach civUTC s true ∧ now = s.next ∧ p ∈ fireLoopUnrepaired s.objs s.spool ∧
       (s.objs p).spec.denote (civUTC (s.objs p).loc now) = false :=
-  ⟨exState, 95, 0, Reach.step _ _ (Reach.init 90) rfl, by decide, by decide, by decide⟩
+  ⟨midState, 91, 0, Reach.tickSched _ _ _ (Reach.call _ _ _ (Reach.tickDrain _ _ _ (Reach.init 90)) rfl),
+    by decide, by decide, by decide⟩
 
 end ErgoVerif.Props.C20
